@@ -10,7 +10,7 @@ from geolib import Gen, Obj, call_impl, classify_impl, compare_obj, stack
 from proto import ET, dec_bools, dec_tens, proj_close, proj_close_nn, run_driver
 
 ID = "C04"
-LEAN_FILES = ["Geo/Props/C04.lean", "Geo/Props/C05c.lean"]
+LEAN_FILES = ["Geo/Props/C04.lean", "Geo/Props/C05c.lean", "Geo/Props/C04b.lean"]
 RULE = ("every modelled operation on collections (join/meet in all 12 scenarios, contains, is_coplanar, transformation apply, ...) "
         "with 1-2 collection axes, lengths 1-4, mixed single/collection arguments and right-aligned broadcasting: the result at "
         "every position is compared with the model's answer for the SINGLE objects at that position; integer indexing / iteration "
